@@ -5,3 +5,14 @@ add('C01', 'property-based testing: typed random STL grammar x random traces aga
     'dropped operators; cannot show absence beyond the explored sizes (depth<=7, n<=24, bounds<=24).',
     'Trusted: vlib/refsem.py (reference semantics) and the conventions listed in the evidence assumptions; floats compared exactly (1e-9 relative when transcendental ops occur).',
     'DESIGN.md section 5 C01')
+add('C02', 'property-based testing: past-time STL grammar with forced sub-formula reuse, online update() per sample vs reference semantics and vs offline evaluate() (differential, Hypothesis)',
+    'Generated search over past-time formulas (deque sizes up to 9, wrap-around many times, duplicate stateful sub-formula text) and traces up to 24 '
+    'samples; every update is compared with the reference and with rtamt offline. Catches buffer length / pre-fill / index errors and shared or '
+    'double-stepped operator state; bounded by depth<=6, bounds<=8.',
+    'Trusted: vlib/refsem.py; an offline/reference disagreement is attributed to C01 and skipped here (counted as discarded).',
+    'DESIGN.md section 5 C02')
+add('C13', 'property-based testing + exhaustive enumeration: generated time-stamp sequences/unit configurations against an exact Fraction model of the tolerance test',
+    'Random sequences of up to 20 gaps on a dyadic lattice around the tolerance boundaries, all dyadic period/unit combinations, 7 tolerances, '
+    'online and offline, plus a complete enumeration of all sequences of <=3 (thorough 4) gaps over a boundary-heavy set. Counter compared with an exact rational count.',
+    'Trusted: the reading "time stamps are in the default unit" (README); gaps are dyadic so the float comparison in rtamt is exact.',
+    'DESIGN.md section 5 C13')
